@@ -158,7 +158,7 @@ func c05Case(c *mon.Ctx, i int, record bool) {
 		c.V("mutated-object|"+culprit, fmt.Sprintf("exported fields of the linted %s changed during linting (first lint that changes them when run alone: %s; input %s~%s)", o.Kind, culprit, o.Name, desc), culprit, inputs(o), nil)
 	}
 	if nontrivial(first) {
-		c.R.Count("distinct_nontrivial", 1)
+		c.CountDistinct(o.DER)
 	}
 	if record {
 		c.R.Distinct("digest", fmt.Sprintf("%d=%s", i, mon.SnapDigest(stripClock(first))))
@@ -185,7 +185,7 @@ func init() {
 	var nSeeds int
 	mon.Register(&mon.Check{
 		ID: "C05",
-		Rule: "evaluations = Lint*Ex calls; each case lints one object 4-8 times through the global registry (half of them on a fresh parse of the same bytes), interleaved with other objects, filtered registries and other configurations, and all per-lint (status, details) must be identical; exported fields of the parsed object are digested (reflection walk) before and after; a sample of cases is re-run alone in a fresh process and compared by result digest; the lint phase is traced with strace (syscall classification) and run with a std-library overlay that hooks time.Now / syscall.Getenv / syscall.Environ with caller attribution. distinct_nontrivial = distinct inputs with >= 1 lint beyond NA that went through the full repetition protocol.",
+		Rule: "evaluations = Lint*Ex calls; each case lints one object 4-8 times through the global registry (half of them on a fresh parse of the same bytes), interleaved with other objects, filtered registries and other configurations, and all per-lint (status, details) must be identical; exported fields of the parsed object are digested (reflection walk) before and after; a sample of cases is re-run alone in a fresh process and compared by result digest; the lint phase is traced with strace (syscall classification) and run with a std-library overlay that hooks time.Now / syscall.Getenv / syscall.Environ with caller attribution. distinct_nontrivial (de-duplicated by a hash of the DER bytes within each worker process) = distinct inputs with >= 1 lint beyond NA that went through the full repetition protocol.",
 		Assumptions: []string{"wall-clock day held fixed: a UTC date change during a comparison that affects only the two exempt AIA lints is skipped and counted", "unexported parser caches are not part of the read-only claim"},
 		Setup: func(c *mon.Ctx) error {
 			if err := c05Setup(c); err != nil {
